@@ -23,6 +23,9 @@ CHECKS['C01'] = ('runtime differential oracle: vector overload vs scalar overloa
 CHECKS['C12'] = ('runtime oracle: long double / __float128 evaluation of the defining formulas with derived k*u*S bounds, exact branch decisions outside the rounding band; pure, clang, -O0 and SIMD (aligned) builds',
          'dot/length/distance/cross/normalize/reflect/refract/faceforward (vec1-4 and scalar overloads, float and double) and the gtx norm/projection/perpendicular/orthonormalize/angle/closest-point helpers are evaluated on random finite vectors plus orthogonal/parallel/antiparallel/near-degenerate configurations and straddlers of refract k=0 and faceforward dot=0; each result is compared with a higher-precision evaluation of the stated identity. The evidence records max error/bound per operation.',
          TRUST, 'DESIGN.md 7/C12')
+CHECKS['C03'] = ('runtime differential monitor: the same operation table evaluated on aligned (SIMD) and packed (generic C++) operands built from identical bits inside GLM_FORCE_INTRINSICS builds at each x86 ISA level, compared under the class the statement gives (identical value / k*u*S / 2^-11 for lowp); hidden-lane poisoning',
+         'About 145 operations (vec1-4 operators and functions for float/double/int/uint, matrices, quaternions, conversions) are executed in 8 (quick) to 35 (thorough) builds covering SSE2..AVX2(+FMA), aligned highp/mediump/lowp, default-aligned and WXYZ configurations; every aligned result is compared with the packed (pure-code) result on the same inputs, including adversarial hidden lanes of aligned vec3, ties, |x|>=2^23, refract/faceforward branch straddlers.',
+         TRUST + ' Reference = packed_highp code path in the same build (the code GLM_FORCE_PURE compiles); NEON not executable here.', 'DESIGN.md 7/C03')
 REASONS = {}
 
 checks = []
